@@ -118,6 +118,8 @@ def rand_object(rng, kind=None, max_ens=3, max_len=5, dtypes=None, classes=None,
                 base_lo=2, base_hi=7, size1=0.25):
     """JSON description of an array object."""
     kind = kind or str(rng.choice(KINDS))
+    if kind == "MeasurementsEnsemble":
+        min_ens, max_ens = max(min_ens, 1), max(max_ens, 1)     # a 0-d ensemble is not an array object
     nens = int(rng.integers(min_ens, max_ens + 1))
     ens_shape = [1 if rng.random() < size1 else int(rng.integers(2, max_len + 1)) for _ in range(nens)]
     bd = BASE_DIMS[kind]
@@ -216,7 +218,7 @@ def make_array(desc):
     a = rng.uniform(0.5, 2.0, size=shape) * rng.choice([-1.0, 1.0], size=shape)
     if dt.kind == "c":
         a = a * np.exp(1j * rng.uniform(-np.pi, np.pi, size=shape))
-    return np.ascontiguousarray(a.astype(dt))
+    return np.array(a.astype(dt), order="C", copy=True).reshape(shape)
 
 
 def build_object(desc, lazy=False, chunks=None, array=None):
